@@ -15,7 +15,7 @@ def plan(tier, seed):
     specs = [(1, 2), (2, 2), (3, 2), (4, 2), (5, 1), (6, 0)] if tier == 'quick' else \
             [(1, 3), (2, 3), (3, 3), (4, 2), (5, 2), (6, 1), (7, 0)]
     return {
-        'chunks': sweep.shape_chunks(specs, per_chunk=60, big=True) + [{'kind': 'clipipe'}],
+        'chunks': sweep.shape_chunks(specs, per_chunk=60, big=True) + [{'kind': 'clipipe'}, {'kind': 'huge'}],
         'rule': 'every hierarchy over n tokens (all discontinuous shapes) with up to u unary '
                 'insertions at every position, each built with child lists in model order, '
                 'reversed and rotated, and as delivered by the export and TIGER-XML readers; every node and every ordered pair of nodes queried, on the fresh tree, after re-attaching the last / first token by hand, and after deleting the last / first token with trees.delete_terminal (expected tree from the reference editor). '
@@ -254,7 +254,36 @@ def compare_live(t, mt, case, out, phase):
                 bad('children after an export writer pass', ref.kids[path], got)
 
 
+def check_huge(n):
+    """Export numbering on a sentence with n tokens (n around the first constituent number 500): constituents are
+    numbered 500.., whatever the sentence length."""
+    from trees import treeoutput
+    sh = (tuple(range(1, n - 1)), (n - 1, n))
+    mt = model.simple_mt(sh)
+    t = build(mt)
+    out = []
+    try:
+        treeoutput.compute_export_numbering(t)
+        ks = sorted(t.children, key=lambda c: min(l.data['num'] for l in raw_leaves(c)))
+        got = [t.data.get('num')] + [k.data.get('num') for k in ks]
+        if got != [0, 500, 501]:
+            out.append({'kind': 'navigation-mismatch', 'where': 'compute_export_numbering', 'case': {'huge': n},
+                        'detail': 'sentence with %d tokens, root and its two constituents are numbered %r, expected [0, 500, 501]' % (n, got),
+                        'what': 'export numbering is not a bijection onto 0 and 500..499+k'})
+        toks = sorted(l.data['num'] for l in raw_leaves(t))
+        if toks != list(range(1, n + 1)):
+            out.append({'kind': 'navigation-mismatch', 'where': 'compute_export_numbering.tokens', 'case': {'huge': n},
+                        'detail': 'token numbers changed in a sentence with %d tokens' % n, 'what': 'export numbering renumbers tokens'})
+    except Exception as e:
+        out.append({'kind': 'exception', 'where': 'compute_export_numbering', 'case': {'huge': n},
+                    'detail': '%s: %s (sentence with %d tokens)' % (type(e).__name__, e, n), 'what': 'export numbering raised'})
+    return out
+
+
 def check_case(case):
+    if 'huge' in case:
+        with quiet():
+            return check_huge(case['huge'])
     if 'clipipe' in case:
         from .. import clipipe
         return clipipe.replay(case)
@@ -263,6 +292,18 @@ def check_case(case):
 
 
 def run_chunk(chunk):
+    if chunk.get('kind') == 'huge':
+        res = Result()
+        with quiet():
+            for n in (99, 499, 500, 501, 640, 1001):
+                vs = check_huge(n)
+                res.evals += 1
+                res.nontrivial += 1
+                res.outcome(('huge', n, len(vs)))
+                for v in vs:
+                    res.violation(v['kind'], v['where'], v['case'], v['detail'], v['what'])
+        res.sample({'export_numbering_on_sentences_with_tokens': [99, 499, 500, 501, 640, 1001]})
+        return res
     if chunk.get('kind') == 'clipipe':
         from .. import clipipe
         res = Result()
